@@ -851,3 +851,73 @@ Theorem eo_objective_achieved flip obj N gs : (forall g, In g gs -> both_labels 
   metric_eval obj (eo_counts (count_label true (concat gs))
                              (Z.of_nat (length (concat gs)) - count_label true (concat gs)) (fe_xbest f) (fe_ybest f)).
 Proof. intro Hb. apply eo_objective_achieved_partial; [exact Hb | intros; apply group_hull_upper]. Qed.
+
+(* ---------- "never worse than the best constant classifier" ---------- *)
+Definition const_thr (c : bool) : thr := if c then TNInf else TInf.      (* c = true: predict 1 everywhere *)
+Definition corner_x (mx : metric) (c : bool) : Q :=
+  match mx with
+  | SelRate | FPR | TPR => if c then 1 else 0
+  | _ => if c then 0 else 1
+  end.
+
+Lemma corner_point flip mx my g c : constraint_metric mx -> both_labels g = true ->
+  exists p, In p (tradeoff_points flip mx my g) /\ pop p = mkop OpGt (const_thr c) /\ px p == corner_x mx c.
+Proof.
+  intros Hm Hb. destruct (thresholds_counts_ends g Hb) as [Hi Hl].
+  destruct (both_labels_pos g Hb) as [P N].
+  set (nneg := count_label false g) in *. set (npos := count_label true g) in *.
+  assert (Pq : 0 < inject_Z npos) by (apply inject_Z_pos; exact P).
+  assert (Nq : 0 < inject_Z nneg) by (apply inject_Z_pos; exact N).
+  pose (pa := mkpt (metric_eval mx (actual_cm nneg npos 0 0)) (metric_eval my (actual_cm nneg npos 0 0)) (mkop OpGt TInf)).
+  pose (pb := mkpt (metric_eval mx (actual_cm nneg npos nneg npos)) (metric_eval my (actual_cm nneg npos nneg npos)) (mkop OpGt TNInf)).
+  assert (Ia : In pa (tradeoff_points flip mx my g)).
+  { unfold tradeoff_points. rewrite sort_xy_in. unfold tradeoff_raw. rewrite in_flat_map.
+    exists (TInf, 0%Z, 0%Z). split; [exact Hi | left; reflexivity]. }
+  assert (Ib : In pb (tradeoff_points flip mx my g)).
+  { unfold tradeoff_points. rewrite sort_xy_in. unfold tradeoff_raw. rewrite in_flat_map.
+    exists (TNInf, nneg, npos). split; [exact Hl | left; reflexivity]. }
+  assert (Z0 : forall z, inject_Z (z - z) == 0) by (intro z; rewrite Z.sub_diag; reflexivity).
+  assert (Z1 : forall z, inject_Z (z - 0) == inject_Z z) by (intro z; rewrite Z.sub_0_r; reflexivity).
+  destruct c; [exists pb | exists pa]; (split; [assumption|]); (split; [reflexivity|]);
+    destruct mx; try contradiction; cbn [px pa pb corner_x];
+    unfold metric_eval, predicted_positives, n_, positives, negatives, actual_cm; cbn [tp fp tn fn];
+    rewrite ?Z0, ?Z1; change (inject_Z 0) with 0; field; lra.
+Qed.
+
+Lemma grid_pt_0 N : grid_pt N 0 == 0.
+Proof. unfold grid_pt, Qeq. cbn. reflexivity. Qed.
+Lemma grid_pt_N N : grid_pt N (Pos.to_nat N) == 1.
+Proof. unfold grid_pt, Qeq. cbn [Qnum Qden]. rewrite positive_nat_Z. lia. Qed.
+
+(* the fitted rule is at least as good as predicting 0 everywhere and as predicting 1 everywhere *)
+Theorem simple_beats_constants flip mx my N gs (c : bool) : constraint_metric mx ->
+  (forall g, In g gs -> both_labels g = true) ->
+  let f := fit_simple flip mx my N gs in
+  qsum (map (fun g => gweight gs g * metric_eval my (exp_cm (op_rule (mkop OpGt (const_thr c))) g)) gs)
+  <= nth (fs_best f) (fs_overall f) 0.
+Proof.
+  intros Hm Hb. cbv zeta.
+  destruct (simple_optimal flip mx my N gs Hm Hb) as [_ Hopt]. cbv zeta in Hopt.
+  set (best := nth (fs_best (fit_simple flip mx my N gs)) (fs_overall (fit_simple flip mx my N gs)) 0) in *.
+  (* the grid index of the constant rule *)
+  assert (Hk : exists k, (k <= Pos.to_nat N)%nat /\ grid_pt N k == corner_x mx c).
+  { destruct mx; try contradiction; destruct c; cbn [corner_x];
+      first [ exists (Pos.to_nat N); split; [lia | apply grid_pt_N] | exists 0%nat; split; [lia | apply grid_pt_0] ]. }
+  destruct Hk as (k & Hk & Ek).
+  (* one mix per group: all weight on the corner point *)
+  assert (Hm2 : exists mixes, Forall2 (fun g wp => valid_mix flip mx my (grid_pt N k) g wp) gs mixes /\
+            Forall2 (fun g v => v == metric_eval my (exp_cm (op_rule (mkop OpGt (const_thr c))) g)) gs (map (wsum py) mixes)).
+  { clear Hopt best. induction gs as [|g l IH]; [exists []; split; constructor|].
+    destruct (IH ltac:(intros g' H'; apply Hb; right; exact H')) as (ms & F1 & F2).
+    destruct (corner_point flip mx my g c Hm (Hb g ltac:(left; reflexivity))) as (p & Ip & Op & Xp).
+    exists ([(1, p)] :: ms). split; constructor; try assumption.
+    - unfold valid_mix, wtot, wsum. cbn [map qsum fst snd]. split; [|split].
+      + intros e [<-|[]]. cbn [fst snd]. split; [lra | exact Ip].
+      + ring.
+      + rewrite Xp, Ek. ring.
+    - unfold wsum. cbn [map qsum fst snd]. destruct (tradeoff_point_sound _ _ _ _ _ Ip) as [_ Yp].
+      rewrite Yp, Op. ring. }
+  destruct Hm2 as (mixes & F1 & F2).
+  specialize (Hopt k mixes Hk F1). unfold weighted in Hopt.
+  rewrite (weighted_eq (gweight gs) gs (map (wsum py) mixes) _ F2) in Hopt. exact Hopt.
+Qed.
